@@ -15,7 +15,7 @@ from mast import lit, var, bin_, un, par, idx
 
 PRE = ['A% = 2', 'B! = 3', 'S$ = "ab"', 'DIM AR%(5)', 'DIM AS$(3)']
 POST = ['FUNCTION FN%(X%)', '  FN% = X% + 1', 'END FUNCTION', 'FUNCTION FS$(X$)', '  FS$ = X$ + "!"', 'END FUNCTION',
-        'FUNCTION FD#(X#)', '  FD# = X# * 2', 'END FUNCTION']
+        'FUNCTION FD#(X#)', '  FD# = X# * 2', 'END FUNCTION', 'SUB SN(X#)', 'END SUB']
 
 
 def bcall(n, *args):
@@ -89,6 +89,16 @@ def positions(e):
     out.append(("builtin-num", ['PRINT LEFT$("abc", ' + t + ")"], {"k": "need", "e": bcall("LEFT$", lit("$", "abc"), e), "kind": "any"}))
     out.append(("if-cond", ["IF " + t + " THEN", "PRINT 1", "END IF"], {"k": "need", "e": e, "kind": "n"}))
     out.append(("for-bound", ["FOR I% = 1 TO " + t, "NEXT"], {"k": "need", "e": e, "kind": "n"}))
+    out.append(("lhs-subscript", ["AR%(" + t + ") = 1"], {"k": "need", "e": idx("AR", "I", [e]), "kind": "any"}))
+    out.append(("lhs-subscript-str", ["AS$(" + t + ') = "q"'], {"k": "need", "e": idx("AS", "$", [e]), "kind": "any"}))
+    out.append(("dim-bound", ["DIM DQ%(0 TO " + t + ")"], {"k": "need", "e": e, "kind": "n"}))
+    out.append(("while-cond", ["WHILE " + t, "A% = 0: S$ = \"\": B! = 0", "WEND"], {"k": "need", "e": e, "kind": "n"}))
+    out.append(("elseif-cond", ["IF A% = 99 THEN", "PRINT 1", "ELSEIF " + t + " THEN", "PRINT 2", "END IF"], {"k": "need", "e": e, "kind": "n"}))
+    out.append(("for-step", ["FOR I% = 1 TO 2 STEP (" + t + ") * 0 + 1", "NEXT"],
+                {"k": "need", "e": bin_("+", bin_("*", par(e), lit("I", 0)), lit("I", 1)), "kind": "n"}))
+    out.append(("for-lower", ["FOR I% = " + t + " TO 0", "NEXT"], {"k": "need", "e": e, "kind": "n"}))
+    out.append(("select-subject", ["SELECT CASE " + t, "CASE ELSE", "PRINT 1", "END SELECT"], {"k": "need", "e": e, "kind": "any"}))
+    out.append(("sub-arg-num", ["SN (" + t + ")"], {"k": "need", "e": ucall("FD#", ["n"], "n", par(e)), "kind": "any"}))
     out.append(("nested-arg", ["PRINT FN%(LEN(UCASE$((" + t + "))))"],
                 {"k": "need", "e": ucall("FN%", ["n"], "n", bcall("LEN", bcall("UCASE$", par(e)))), "kind": "any"}))
     return out
